@@ -1,7 +1,7 @@
 use std::{borrow::Cow, fmt::Debug, io::Write, sync::Arc};
 
 use quick_xml::{
-    events::{attributes::Attribute, BytesStart, Event},
+    events::{attributes::Attribute, BytesStart, BytesText, Event},
     name::{QName, ResolveResult},
     ElementWriter, NsReader, Writer,
 };
@@ -213,15 +213,12 @@ where
     A: Action<Text>,
 {
     fn write_data<W: Write>(&self, writer: &mut Writer<W>) -> Result<(), WriteError> {
+        // text and JSON configuration data are character data, not markup: escape it
         writer
             .create_element(A::TAG)
-            .write_inner_content(|writer| {
-                writer
-                    .get_mut()
-                    .write_all(self.as_ref().as_bytes())
-                    .map_err(|err| WriteError::Other(err.into()))
-            })
+            .write_text_content(BytesText::new(self.as_ref()))
             .map(|_| ())
+            .map_err(WriteError::from)
     }
 }
 
@@ -242,15 +239,12 @@ where
     A: Action<Json>,
 {
     fn write_data<W: Write>(&self, writer: &mut Writer<W>) -> Result<(), WriteError> {
+        // text and JSON configuration data are character data, not markup: escape it
         writer
             .create_element(A::TAG)
-            .write_inner_content(|writer| {
-                writer
-                    .get_mut()
-                    .write_all(self.as_ref().as_bytes())
-                    .map_err(|err| WriteError::Other(err.into()))
-            })
+            .write_text_content(BytesText::new(self.as_ref()))
             .map(|_| ())
+            .map_err(WriteError::from)
     }
 }
 
